@@ -9,7 +9,11 @@ sending job with block size `bsS` towards a receiving job that was offered `size
 (`none` = not announced) and accepts blocks up to `bsR`, over a channel that performs `ops`.  `honest n` is `n`
 faithful deliveries.  `H` is the file hash (MD5 in the code); it is a parameter, and "MD5 does not collide on the two
 contents compared" is a hypothesis wherever it is needed, never an axiom.  `r.success` / `s.success` = the job is
-in `FinishedState` with `NoError`; `r.acc` = contents of the receiver's output device.
+in `FinishedState` with `NoError`; `r.acc` = what the receiver's output device actually HOLDS (not the job's byte
+counter), `r.fed` = the bytes the running MD5 was fed.  `initDev dev …` starts a transfer into a device that may take
+fewer bytes per `write()` than offered, run full, or fail (`Dev`); `init … = initDev .unlimited …` (QBuffer, healthy
+file).  The code calls `write()` once per block, counts what the device reports, hashes the whole block and never
+retries, so `acc`, `fed` and the counter may differ — the theorems below are about `acc`.
 
 Counters: both jobs keep `quint16 ibbSequence` (since repo commit 49cbe2e; it was `int` before, which made every
 transfer of more than 65536 blocks fail — the former `C19_defect_seq_wrap`).  The model uses `UInt16` for both
@@ -19,25 +23,43 @@ namespace Qx.C19
 
 /-! ## Success means identical bytes -/
 
-/-- **Success ⇒ identical bytes, whatever the channel does** (offer carried the MD5 of the file).
-For every file, block sizes, announced size — even a wrong or absent one — and EVERY channel history, including
-altered blocks and requests forged in the sender's name: if the receiving job reports success, its output device
-holds exactly the sender's bytes, provided MD5 does not collide on these two contents (`hcoll`). -/
-theorem success_implies_identical_bytes (H : List UInt8 → List UInt8) (bsS bsR size : Nat) (data : List UInt8)
-    (ops : List Op)
-    (hcoll : H (run H (init bsS bsR size (some (H data)) data) ops).1.r.acc = H data →
-             (run H (init bsS bsR size (some (H data)) data) ops).1.r.acc = data) :
-    (run H (init bsS bsR size (some (H data)) data) ops).1.r.success →
-    (run H (init bsS bsR size (some (H data)) data) ops).1.r.acc = data := by
+/-- **Success ⇒ the device holds identical bytes, whatever the channel and the device do** (offer carried the MD5 and
+the true size).  For every file, block sizes, EVERY channel history — including altered blocks and requests forged in
+the sender's name — and every receiving device (`dev`: takes everything, at most k bytes per write, runs full, fails):
+if the receiving job reports success, its output device holds exactly the sender's bytes, provided MD5 does not
+collide between what the hash was fed and the file (`hcoll`).  The true size must have been announced unless the device
+takes everything (`hsz`): the hash covers the bytes OFFERED to the device, only the size check (`done`, the sum of what
+`write()` reported) notices a short write — a peer that omits the size attribute (XEP-0096 requires it; qxmpp always
+sends it for a non-empty file) leaves short writes undetected. -/
+theorem success_implies_identical_bytes (H : List UInt8 → List UInt8) (dev : Dev) (bsS bsR size : Nat) (data : List UInt8)
+    (ops : List Op) (hsz : size = data.length ∨ dev = .unlimited)
+    (hcoll : H (run H (initDev dev bsS bsR size (some (H data)) data) ops).1.r.fed = H data →
+             (run H (initDev dev bsS bsR size (some (H data)) data) ops).1.r.fed = data) :
+    (run H (initDev dev bsS bsR size (some (H data)) data) ops).1.r.success →
+    (run H (initDev dev bsS bsR size (some (H data)) data) ops).1.r.acc = data := by
   intro hs
-  have hc := run_checked H ops _ (checked_init H bsS bsR size (some (H data)) data)
+  have hc := run_checked H ops _ (checked_init H dev bsS bsR size (some (H data)) data)
   have hck := (checkFails_false_iff H _).1 (hc hs.1 hs.2)
-  apply hcoll
-  apply hck.2
-  have := (run_r_inv H (fun r => r.hash = some (H data))
+  have hh := run_r_inv H (fun r => r.hash = some (H data))
     (by intro r p h; unfold recv; repeat (first | exact h | split | simpa using h)) ops
-    (init bsS bsR size (some (H data)) data) rfl)
-  exact this
+    (initDev dev bsS bsR size (some (H data)) data) rfl
+  have hfed := hcoll (hck.2 _ hh)
+  rcases hsz with hsz | hu
+  · have hsize := run_r_inv H (fun r => r.size = size)
+      (by intro r p h; unfold recv; repeat (first | exact h | split | simpa using h)) ops
+      (initDev dev bsS bsR size (some (H data)) data) rfl
+    have haf := run_r_inv H AF (recv_AF H) ops (initDev dev bsS bsR size (some (H data)) data) (Or.inl rfl)
+    rcases haf with haf | haf
+    · rw [haf]; exact hfed
+    · rw [hfed] at haf
+      by_cases hz : size = 0
+      · omega
+      · have := hck.1 (by rw [hsize]; exact hz)
+        rw [hsize] at this
+        omega
+  · have hafu := run_r_inv H AFU (recv_AFU H) ops (initDev dev bsS bsR size (some (H data)) data)
+      ⟨hu, rfl⟩
+    rw [hafu.2]; exact hfed
 
 /-
 Full statement (no bound on the number of blocks):
@@ -54,31 +76,40 @@ exchanges neighbours), so for THIS alphabet the full statement is not refuted, m
 With a hash announced the unconditional theorem above applies.
 -/
 
-/-- **Success ⇒ identical bytes by the sequence numbers and the size alone — partial: at most 65536 blocks**
-(`data.length ≤ 65536 * bsS`; missing part: longer files, see the comment above).  No hash needed, none assumed.
-For every such file, block sizes, announced hash (present, absent or wrong) and every history of a channel that loses,
-duplicates, reorders, mislabels, cuts short and lets third parties or other sessions interfere — but does not alter
-payloads or forge requests in the sender's name (`Op.benign`) — with the true size announced: if the receiving job
-reports success it holds exactly the sender's bytes.  Invariant: the receiver holds the first `expected` blocks (or,
-after a complete 65536-block file and a wrapped counter, more bytes than the file has — never success again). -/
-theorem success_implies_identical_bytes_by_sequence_partial (H : List UInt8 → List UInt8) (bsS bsR : Nat)
+/-- **Success ⇒ the device holds identical bytes, by the sequence numbers and the size alone — partial: at most 65536
+blocks** (`data.length ≤ 65536 * bsS`; missing part: longer files, see the comment above).  No hash needed, none
+assumed.  For every such file, block sizes, announced hash (present, absent or wrong), every receiving device and every
+history of a channel that loses, duplicates, reorders, mislabels, cuts short and lets third parties or other sessions
+interfere — but does not alter payloads or forge requests in the sender's name (`Op.benign`) — with the true size
+announced: if the receiving job reports success its device holds exactly the sender's bytes.  For a device that may
+take less than offered the proof needs one block less (`hdev`: at most 65535 blocks unless the device takes
+everything): with exactly 65536 blocks the wrapped counter would let a replayed block refill a device that is short.
+Invariant: the device holds the first `expected` blocks, or strictly fewer bytes than those (after a short or failed
+write), or — after a complete 65536-block file and a wrapped counter — more bytes than the file has. -/
+theorem success_implies_identical_bytes_by_sequence_partial (H : List UInt8 → List UInt8) (dev : Dev) (bsS bsR : Nat)
     (hash : Option (List UInt8)) (data : List UInt8) (hlen : data.length ≤ 65536 * bsS)
+    (hdev : dev = .unlimited ∨ data.length ≤ 65535 * bsS)
     (ops : List Op) (hb : ∀ op ∈ ops, op.benign) :
-    (run H (init bsS bsR data.length hash data) ops).1.r.success →
-    (run H (init bsS bsR data.length hash data) ops).1.r.acc = data := by
+    (run H (initDev dev bsS bsR data.length hash data) ops).1.r.success →
+    (run H (initDev dev bsS bsR data.length hash data) ops).1.r.acc = data := by
   intro hs
-  have hi := inv_run H data bsS hlen ops _ hb (inv_init bsS bsR data.length hash data)
-  have hc := run_checked H ops _ (checked_init H bsS bsR data.length hash data)
-  have hsz : (run H (init bsS bsR data.length hash data) ops).1.r.size = data.length :=
+  have hc := run_checked H ops _ (checked_init H dev bsS bsR data.length hash data)
+  have hsz : (run H (initDev dev bsS bsR data.length hash data) ops).1.r.size = data.length :=
     run_r_inv H (fun r => r.size = data.length)
       (by intro r p h; unfold recv; repeat (first | exact h | split | simpa using h)) ops _ rfl
-  exact rinv_success_identical H data bsS _ hsz hi.r hc hs
+  rcases hdev with hu | h65535
+  · have hi := inv_run H data bsS 65536 (Nat.le_refl _) hlen ops _ hb
+      (inv_init dev bsS bsR data.length 65536 hash data (fun _ => hu))
+    exact rinv_success_identical H data bsS 65536 _ hsz hi.r hc hs
+  · have hi := inv_run H data bsS 65535 (by omega) h65535 ops _ hb
+      (inv_init dev bsS bsR data.length 65535 hash data (by omega))
+    exact rinv_success_identical H data bsS 65535 _ hsz hi.r hc hs
 
 /-! ## The fault-free run -/
 
 /-- **The fault-free run succeeds — in full**, for every file content and size (no bound on the number of blocks: the
 16-bit counters of both jobs wrap together) and every negotiated block size (`0 < bsS ≤ bsR`), with or without an
-announced hash: after `data.length + 2` faithful deliveries (enough for `<open/>`, every block and `<close/>`) both
+announced hash, into a receiving device that takes what it is given (`init`): after `data.length + 2` faithful deliveries (enough for `<open/>`, every block and `<close/>`) both
 jobs report success, the receiver holds exactly the file and nothing is left in the channel.
 (Before repo commit 49cbe2e this was false from 65537 blocks on; the witness — block size 1, 65537 bytes — is the
 first entry of the harness corpus and must succeed on the real code.) -/
@@ -128,15 +159,17 @@ theorem fault_never_success_partial (H : List UInt8 → List UInt8) (bsS bsR : N
 /-- **An altered block is never reported as success — when the offer carried the hash.**
 For every file (any number of blocks), block sizes, data block `j`, bit position, and ANY continuation whatsoever
 (even forging): if one bit of block `j` is flipped in transit, the receiving job does not report success, provided
-MD5 does not collide between what the receiver ends up holding and the file (`hcoll`). -/
+MD5 does not collide between what the receiver's hash was fed (= what its device holds: the device of `init` takes
+everything) and the file (`hcoll`). -/
 theorem altered_block_never_success (H : List UInt8 → List UInt8) (bsS bsR size : Nat) (data : List UInt8)
     (hb : 0 < bsS) (hle : bsS ≤ bsR)
     (j : Nat) (hblk : j * bsS < data.length) (bit : Nat) (cont : List Op)
-    (hcoll : H (run H (init bsS bsR size (some (H data)) data) (honest (j + 1) ++ .flip bit :: cont)).1.r.acc = H data →
-             (run H (init bsS bsR size (some (H data)) data) (honest (j + 1) ++ .flip bit :: cont)).1.r.acc = data) :
+    (hcoll : H (run H (init bsS bsR size (some (H data)) data) (honest (j + 1) ++ .flip bit :: cont)).1.r.fed = H data →
+             (run H (init bsS bsR size (some (H data)) data) (honest (j + 1) ++ .flip bit :: cont)).1.r.fed = data) :
     ¬ (run H (init bsS bsR size (some (H data)) data) (honest (j + 1) ++ .flip bit :: cont)).1.r.success := by
   intro hs
-  have hid := success_implies_identical_bytes H bsS bsR size data _ hcoll hs
+  have hid := success_implies_identical_bytes H .unlimited bsS bsR size data _ (Or.inr rfl) hcoll hs
+  change (run H (init bsS bsR size (some (H data)) data) (honest (j + 1) ++ .flip bit :: cont)).1.r.acc = data at hid
   rw [run_append, honest_prefix H bsS bsR size (some (H data)) data hb hle j hblk] at hid
   have hpre : ∃ t, (run H (step H (atBlock bsS bsR size (some (H data)) data j) (.flip bit)).1 cont).1.r.acc =
       (data.take (j * bsS) ++ flipBit ((data.drop (j * bsS)).take bsS) bit) ++ t :=
@@ -176,32 +209,51 @@ theorem duplicate_is_refused_and_harmless (H : List UInt8 → List UInt8) (bsS b
 
 /-! ## SOCKS5 byte stream (no sequence numbers; stream-host / proxy negotiation outside the model) -/
 
-/-- **SOCKS5: success ⇒ identical bytes** for every sequence of socket events (chunks of any content, disconnects),
-every announced size, when the offer carried the hash and MD5 does not collide on the two contents. -/
-theorem socks_success_implies_identical_bytes (H : List UInt8 → List UInt8) (size : Nat) (data : List UInt8) (ops : List SOp)
-    (hcoll : H (srun H (sinit size (some (H data))) ops).acc = H data → (srun H (sinit size (some (H data))) ops).acc = data) :
-    (srun H (sinit size (some (H data))) ops).success → (srun H (sinit size (some (H data))) ops).acc = data := by
+/-- **SOCKS5: success ⇒ the device holds identical bytes** for every sequence of socket events (chunks of any content,
+disconnects) and every receiving device, when the offer carried the hash and the true size (or the device takes
+everything) and MD5 does not collide on what the hash was fed and the file. -/
+theorem socks_success_implies_identical_bytes (H : List UInt8 → List UInt8) (dev : Dev) (size : Nat) (data : List UInt8)
+    (ops : List SOp) (hsz : size = data.length ∨ dev = .unlimited)
+    (hcoll : H (srun H (sinitDev dev size (some (H data))) ops).fed = H data →
+             (srun H (sinitDev dev size (some (H data))) ops).fed = data) :
+    (srun H (sinitDev dev size (some (H data))) ops).success → (srun H (sinitDev dev size (some (H data))) ops).acc = data := by
   intro hs
-  have hc := srun_checked H ops (sinit size (some (H data))) (by intro h; simp [sinit] at h)
+  have hc := srun_checked H ops (sinitDev dev size (some (H data))) (by intro h; simp [sinitDev] at h)
   have hck := (checkFails_false_iff H _).1 (hc hs.1 hs.2)
-  exact hcoll (hck.2 _ (by simp [sinit]))
+  have hfed := hcoll (hck.2 _ (by simp [sinitDev]))
+  rcases hsz with hsz | hu
+  · have haf := srun_AF H ops (sinitDev dev size (some (H data))) (Or.inl rfl)
+    rcases haf with haf | haf
+    · rw [haf]; exact hfed
+    · rw [hfed] at haf
+      by_cases hz : size = 0
+      · omega
+      · have hsize : (srun H (sinitDev dev size (some (H data))) ops).size = size := by
+          rw [srun_size]; rfl
+        have := hck.1 (by rw [hsize]; exact hz)
+        rw [hsize] at this
+        omega
+  · have hafu := srun_AFU H ops (sinitDev dev size (some (H data))) ⟨hu, rfl⟩
+    rw [hafu.2]; exact hfed
 
 /-- **SOCKS5: a stream cut short is never reported as success** — for every announced size, hash or none, and every
-event sequence that carries fewer bytes than announced. -/
-theorem socks_short_stream_never_success (H : List UInt8 → List UInt8) (size : Nat) (hash : Option (List UInt8))
-    (ops : List SOp) (hshort : sbytes ops < size) : ¬ (srun H (sinit size hash) ops).success :=
-  srun_short H ops (sinit size hash) (by simp [sinit, Recv.success]) (by simpa [sinit, Recv.acc] using hshort)
+event sequence that carries fewer bytes than announced, and every receiving device. -/
+theorem socks_short_stream_never_success (H : List UInt8 → List UInt8) (dev : Dev) (size : Nat) (hash : Option (List UInt8))
+    (ops : List SOp) (hshort : sbytes ops < size) : ¬ (srun H (sinitDev dev size hash) ops).success :=
+  srun_short H ops (sinitDev dev size hash) (by simp [sinitDev, Recv.success]) (by simpa [sinitDev, Recv.acc] using hshort)
 
-/-- **SOCKS5: the faithful stream succeeds** however the bytes are split into reads, with or without a hash. -/
+/-- **SOCKS5: the faithful stream succeeds** however the bytes are split into reads, with or without a hash, into a device
+that takes what it is given. -/
 theorem socks_honest_run_succeeds (H : List UInt8 → List UInt8) (data : List UInt8) (withHash : Bool)
     (chunks : List (List UInt8)) (hsplit : chunks.flatten = data) :
     let r := srun H (sinit data.length (if withHash then some (H data) else none)) (chunks.map .chunk ++ [.disconnect])
     r.success ∧ r.acc = data := by
   apply srun_honest H data chunks _ rfl
   · intro h hh
-    cases withHash <;> simp [sinit] at hh
+    cases withHash <;> simp [sinit, sinitDev] at hh
     exact hh
-  · left; exact ⟨rfl, by simpa [sinit, Recv.acc] using hsplit⟩
+  · exact ⟨rfl, rfl⟩
+  · left; exact ⟨rfl, by simpa [sinit, sinitDev, Recv.acc] using hsplit⟩
 
 /-! ## Non-vacuity: the hypotheses are met by concrete runs (hash = identity, so `hcoll` is trivially true) -/
 
@@ -224,6 +276,15 @@ example : (run id (init 2 4096 5 none [1, 2, 3, 4, 5])
       [.deliver, .dup, .inject 1 0 (.data 1 [9, 9]), .inject 0 1 .close, .deliver, .deliver, .deliver]).1.r.success := by decide
 example : ∀ op ∈ [Op.deliver, .dup, .inject 1 0 (.data 1 [9, 9]), .inject 0 1 .close, .deliver], op.benign := by
   simp [Op.benign]
+-- a device that takes one byte per write() / runs full / fails: the honest transfer ends in FileCorruptError, the device
+-- holds less than the file, the job's hash input is the whole file
+example : (run id (initDev (.perWrite 1) 2 4096 5 (some [1, 2, 3, 4, 5]) [1, 2, 3, 4, 5]) (honest 5)).1.r.error = .corrupt
+    ∧ (run id (initDev (.perWrite 1) 2 4096 5 (some [1, 2, 3, 4, 5]) [1, 2, 3, 4, 5]) (honest 5)).1.r.acc = [1, 3, 5]
+    ∧ (run id (initDev (.perWrite 1) 2 4096 5 (some [1, 2, 3, 4, 5]) [1, 2, 3, 4, 5]) (honest 5)).1.r.fed = [1, 2, 3, 4, 5] := by decide
+example : (run id (initDev (.fullAfter 3) 2 4096 5 none [1, 2, 3, 4, 5]) (honest 5)).1.r.error = .corrupt
+    ∧ (run id (initDev (.fullAfter 3) 2 4096 5 none [1, 2, 3, 4, 5]) (honest 5)).1.r.acc = [1, 2, 3] := by decide
+example : (run id (initDev (.failAt 3) 2 4096 5 none [1, 2, 3, 4, 5]) (honest 5)).1.r.error = .corrupt
+    ∧ (run id (initDev (.failAt 3) 2 4096 5 none [1, 2, 3, 4, 5]) (honest 5)).1.r.acc = [1, 2, 5] := by decide
 -- SOCKS5: faithful stream in two reads succeeds, a truncated one is corrupt
 example : (srun id (sinit 3 (some [7, 8, 9])) [.chunk [7], .chunk [8, 9], .disconnect]).success := by decide
 example : (srun id (sinit 3 (some [7, 8, 9])) [.chunk [7, 8], .disconnect]).error = .corrupt := by decide
